@@ -13,7 +13,8 @@
    Statements (assignment, if/while, variables in stack slots, calls, early return) have no
    theorem; they are validated by differential execution in tools/props/c36.py. *)
 From PV Require Import Lib.Py Spec.IRSyntax Spec.IRSem Spec.PyExprSpec Model.Py2Ir
-  Proofs.C36_py2ir Proofs.C36_current Gen.Tab_py2ir.
+  Proofs.C36_py2ir Proofs.C36_current Gen.Tab_py2ir
+  Spec.PyStmtSpec Model.StmtCode Model.Py2IrStmt Proofs.C36_stmt.
 Open Scope Z_scope.
 
 (* ---- expressions: current source, every expression the front-end accepts, all operands ---- *)
@@ -103,6 +104,43 @@ Theorem c36_for_var_after_refuted :
   py_for_var_after (fun _ => Fall) 0 5 = Some 4.
 Proof. exact for_orig_var_after_refuted. Qed.
 Print Assumptions c36_for_var_after_refuted.
+
+(* ---- statements: whole function bodies of the subset (assignment, augmented assignment,
+   if/elif/else, while, for-range, break, continue, return, pass).  [pcompile] (Model/Py2IrStmt.v)
+   models gen_statement's CFG construction; the CFG is represented unfolded along its forward
+   edges (Model/StmtCode.v: join blocks duplicated, back edges and loop heads explicit, the
+   for-loop phi and bound as registers, locals as stack slots); [pruns] executes it with
+   IRSem's arithmetic (eval_binop / eval_cond through eval_tree) -- NOT with IRSem.run_function
+   on numbered blocks and byte memory: that last step (block numbering, Alloc/Load/Store through
+   memory, phi via predecessor lookup, delete_unreachable) is validated by structural comparison
+   of the model's code with the decompiled python_to_ir output and by differential execution.
+   [pexec] = CPython's big-step semantics within 64 bits (relational; a derivation exists only
+   for terminating, exception-free, overflow-free executions). ---- *)
+Theorem c36_stmt_exact : forall s env out, pexec s env out ->
+  forall d kn kb kc c ls rg v, pcompile lowcfg_cur d s kn kb kc = Some c -> length ls = d ->
+    top_ok d kn -> top_ok d kb -> top_ok d kc ->
+    after d ls rg v kn kb kc out -> pruns ls env rg c v.
+Proof. exact (stmt_sim_all lowcfg_cur sound_cur fd_exact_cur). Qed.
+Print Assumptions c36_stmt_exact.
+
+(* a function body that CPython runs to `return v` compiles to code that returns v *)
+Theorem c36_body_exact : forall body env v c rg,
+  pexec body env (PRet v) -> pcompile lowcfg_cur 0 body KStuck KStuck KStuck = Some c ->
+  pruns [] env rg c v.
+Proof. intros. eapply body_exact; eauto using sound_cur, fd_exact_cur. Qed.
+Print Assumptions c36_body_exact.
+
+(* the statement model is the one of the current source's gen_for *)
+Theorem c36_stmt_model_variant : for_variant_cur = VIncBlock /\ for_loopvar_cur = LVSlot.
+Proof. split; reflexivity. Qed.
+Print Assumptions c36_stmt_model_variant.
+
+(* the statement theorems are not vacuous: CPython runs this body (s = 0; for i in range(0, a):
+   if i == 1: continue; s = s + i; return s // 2) from a = 3 to `return 1`, and it compiles *)
+Example c36_stmt_nonvacuous :
+  pexec ex36_body [3; 7; 9] (PRet 1) /\
+  exists c, pcompile lowcfg_cur 0 ex36_body KStuck KStuck KStuck = Some c.
+Proof. split; [exact ex36_run|]. eexists. vm_compute. reflexivity. Qed.
 
 (* hypotheses are inhabited: (x0 - 7) // x1 with x0 = 0, x1 = 2 lowers and evaluates to -4;
    a loop with continue at 1 and break at 3 visits 0 1 2 3 and leaves 3 in the variable *)
